@@ -494,7 +494,7 @@ func (e *Engine) heapGet(st *State, name, sort string) string {
 	}
 	e.sortDone["heap:"+name] = sort
 	ep := fmt.Sprint(st.epoch)
-	if strings.HasPrefix(name, "W_") || strings.HasPrefix(name, "GH_") {
+	if strings.HasPrefix(name, "W_") || strings.HasPrefix(name, "GH_") || e.stableHeap(name) {
 		// the abstract writer's ghost heaps survive unknown calls (see havocAll): one that has not been named on this
 		// path yet still has its entry value
 		ep = "0"
@@ -832,4 +832,22 @@ func keyName(k any) string {
 		return x.name
 	}
 	return fmt.Sprintf("%v", k)
+}
+
+// stableHeap: the heap holds a field of a struct type listed in `opt stable` (not reachable by unknown code): a heap of
+// that kind that has not been named on this path yet still has its entry value after an unknown call.
+func (e *Engine) stableHeap(name string) bool {
+	if e.c == nil || e.c.Opts["stable"] == "" || !strings.HasPrefix(name, "F_") {
+		return false
+	}
+	for _, tn := range strings.Fields(e.c.Opts["stable"]) {
+		pfx := "F_" + mangle(e.c.Pkg+"."+tn) + "_"
+		if strings.Contains(tn, ".") {
+			pfx = "F_" + mangle(tn) + "_"
+		}
+		if strings.HasPrefix(name, pfx) {
+			return true
+		}
+	}
+	return false
 }
